@@ -602,7 +602,12 @@ def plan(tier, seed):
     if tier == 'thorough':
         chosen = allc
     else:
-        chosen = rng.sample(allc, 6000)
+        # the default policy under every environment shape that changes what
+        # "the request's own origin" is - all variants, request kinds and
+        # gateways - is small enough to be always included
+        fam = [c for c in allc if CFG[c[0]] == 'none' and c[1] == 0 and
+               ENV[c[3]] in ('https', 'xfp', 'xfboth', 'hostport')]
+        chosen = fam + rng.sample(allc, 6000)
     # seeded mutations of allowed origins
     for k in range(120000 if tier == 'thorough' else 1200):
         chosen.append((rng.randrange(len(CFG)), rng.randrange(2),
